@@ -507,6 +507,22 @@ class Exec:
         self.inlined[target.qual] = target
         return out
 
+    def call_is_pure(self, c: ast.Call, depth: int = 0) -> bool:
+        """Effect-free call: a known pure function, or a private helper that only returns an effect-free expression."""
+        if _is_pure_call(c):
+            return True
+        target = self._callee(c)
+        if target is None or depth > 3 or target.is_async:
+            return False
+        body = [b for b in target.node.body if not (isinstance(b, ast.Expr) and isinstance(b.value, ast.Constant))]
+        if len(body) != 1 or not isinstance(body[0], ast.Return) or body[0].value is None:
+            return False
+        return self.expr_is_pure(body[0].value, depth + 1)
+
+    def expr_is_pure(self, e: ast.AST, depth: int = 0) -> bool:
+        return not any(isinstance(n, (ast.NamedExpr, ast.Await, ast.Yield, ast.YieldFrom)) for n in ast.walk(e)) and all(
+            self.call_is_pure(c, depth) for c in ast.walk(e) if isinstance(c, ast.Call))
+
     def opaque_private_calls(self, p: "PathSum") -> list[str]:
         """Calls of private functions of this class / module that a path could not see through."""
         return [e[1] for e in p.events if e[0] == "call" and not _is_pure_call(e[2]) and self._callee(e[2]) is not None]
@@ -840,12 +856,14 @@ class Exec:
                                 done.append((s2, ex))
                     live = nxt
                 return done + [(x, None) for x in live]
+        if isinstance(s, ast.Match):
+            return self._stmt(_match_as_if(s), st, mode, depth)
         if isinstance(s, (ast.For,)):
-            as_if = _search_loop_as_if(s)
+            as_if = _search_loop_as_if(s, self.expr_is_pure)
             if as_if is None:
                 raise Unsupported(f"loop at line {getattr(s, 'lineno', '?')}")
             return self._stmt(as_if, st, mode, depth)
-        if isinstance(s, ast.If) and _only_logs(s):
+        if isinstance(s, ast.If) and _only_logs(s, self.expr_is_pure):
             return [(st, None)]  # reporting only: neither outcome changes state, calls or results
         if isinstance(s, ast.If):
             out: list[tuple[State, tuple[str, ast.AST | None] | None]] = []
@@ -930,33 +948,93 @@ def _unroll_any_all(e: ast.Call) -> ast.AST | None:
     return None
 
 
-def _search_loop_as_if(s: ast.For) -> ast.If | None:
+def _match_as_if(s: ast.Match) -> ast.stmt:
+    """`match subj:` over value patterns is the if-chain `subj == v1` / `subj == v2 or subj == v3` / else
+    (`case _`); singletons compare with `is`; a guard is `and guard`.  No default arm: no else."""
+    def test(p: ast.pattern) -> ast.AST | None:
+        if isinstance(p, ast.MatchValue):
+            return ast.Compare(left=copy.deepcopy(s.subject), ops=[ast.Eq()], comparators=[p.value])
+        if isinstance(p, ast.MatchSingleton):
+            return ast.Compare(left=copy.deepcopy(s.subject), ops=[ast.Is()], comparators=[ast.Constant(p.value)])
+        if isinstance(p, ast.MatchOr):
+            parts = [test(x) for x in p.patterns]
+            return None if any(x is None for x in parts) else ast.BoolOp(op=ast.Or(), values=parts)
+        return None
+    if any(isinstance(n, (ast.Call, ast.Await, ast.NamedExpr)) and not (isinstance(n, ast.Call) and _is_pure_call(n))
+           for n in ast.walk(s.subject)):
+        raise Unsupported("match on a subject with effects")
+    head: ast.If | None = None
+    tail: ast.If | None = None
+    for i, c in enumerate(s.cases):
+        wildcard = isinstance(c.pattern, ast.MatchAs) and c.pattern.pattern is None and c.pattern.name is None
+        if wildcard and c.guard is None:
+            if i != len(s.cases) - 1:
+                raise Unsupported("match: wildcard before the last case")
+            if tail is None:
+                return ast.fix_missing_locations(ast.copy_location(ast.If(test=ast.Constant(True), body=c.body, orelse=[]), s))
+            tail.orelse = c.body
+            break
+        t = ast.Constant(True) if wildcard else test(c.pattern)
+        if t is None:
+            raise Unsupported(f"match pattern {type(c.pattern).__name__}")
+        if c.guard is not None:
+            t = ast.BoolOp(op=ast.And(), values=[t, c.guard])
+        node = ast.If(test=t, body=c.body, orelse=[])
+        if head is None:
+            head = node
+        else:
+            tail.orelse = [node]  # type: ignore[union-attr]
+        tail = node
+    if head is None:
+        raise Unsupported("empty match")
+    return ast.fix_missing_locations(ast.copy_location(head, s))
+
+
+def _search_loop_as_if(s: ast.For, pure: Callable[[ast.AST], bool]) -> ast.If | None:
     """A search loop is the conditional it computes:
          for v in it:                         if any(c(v) for v in it):
              if c(v): [log]; return r   ==        return r
          for v in it:                         if any(c(v) for v in it):
              if c(v): x = k; break      ==        x = k
+       where `if not c(v): continue` followed by the rest is the same as `if c(v): <rest>`
     (`it` and `c` effect-free; what happens on a hit does not use `v` apart from logging)."""
-    if s.orelse or len(s.body) != 1 or not isinstance(s.body[0], ast.If) or s.body[0].orelse:
+    if s.orelse:
         return None
-    inner = s.body[0]
-    hit = [b for b in inner.body if not (_is_log_stmt(b) or (isinstance(b, ast.If) and _only_logs(b)))]
+    body = list(s.body)
+    conds: list[ast.AST] = []
+    while True:  # peel `if t: continue` guards and a final enclosing `if c:`
+        body = [b for b in body if not (_is_log_stmt(b) or (isinstance(b, ast.If) and _only_logs(b, pure)))] or body[:0]
+        if not body:
+            return None
+        f = body[0]
+        if isinstance(f, ast.If) and not f.orelse and len(f.body) == 1 and isinstance(f.body[0], ast.Continue) and len(body) > 1:
+            conds.append(ast.UnaryOp(op=ast.Not(), operand=f.test))
+            body = body[1:]
+            continue
+        if len(body) == 1 and isinstance(f, ast.If) and not f.orelse:
+            conds.append(f.test)
+            body = list(f.body)
+            continue
+        break
+    if not conds:
+        return None
+    hit = body
     bound = {n.id for n in ast.walk(s.target) if isinstance(n, ast.Name)}
-    if not hit or any(isinstance(n, ast.Name) and n.id in bound for b in hit for n in ast.walk(b)):
+    if any(isinstance(n, ast.Name) and n.id in bound for b in hit for n in ast.walk(b)):
         return None
     if isinstance(hit[-1], ast.Return):
-        body = hit
+        then = hit
     elif isinstance(hit[-1], ast.Break):
-        body = hit[:-1] or [ast.Pass()]
+        then = hit[:-1] or [ast.Pass()]
     else:
         return None
-    if any(not isinstance(b, (ast.Assign, ast.AnnAssign, ast.Return, ast.Pass)) for b in body) or any(
-            isinstance(n, (ast.Await, ast.NamedExpr, ast.Yield)) or (isinstance(n, ast.Call) and not _is_pure_call(n))
-            for x in (s.iter, inner.test) for n in ast.walk(x)):
+    if any(not isinstance(b, (ast.Assign, ast.AnnAssign, ast.Return, ast.Pass)) for b in then) or not pure(s.iter) \
+            or not all(pure(c) for c in conds):
         return None
-    gen = ast.GeneratorExp(elt=inner.test, generators=[ast.comprehension(target=s.target, iter=s.iter, ifs=[], is_async=0)])
+    cond = conds[0] if len(conds) == 1 else ast.BoolOp(op=ast.And(), values=conds)
+    gen = ast.GeneratorExp(elt=cond, generators=[ast.comprehension(target=s.target, iter=s.iter, ifs=[], is_async=0)])
     test = ast.Call(func=ast.Name(id="any", ctx=ast.Load()), args=[gen], keywords=[])
-    out = ast.If(test=test, body=body, orelse=[])
+    out = ast.If(test=test, body=then, orelse=[])
     return ast.fix_missing_locations(ast.copy_location(out, s))
 
 
@@ -965,13 +1043,11 @@ def _is_log_stmt(s: ast.stmt) -> bool:
                                        and u(s.value.func).split(".")[0] in ("_logger", "logging", "_log"))
 
 
-def _only_logs(s: ast.If) -> bool:
+def _only_logs(s: ast.If, pure: Callable[[ast.AST], bool]) -> bool:
     """`if <effect-free test>: <logging calls only>` (also nested) — skipped by the executor."""
     def arms_ok(x: ast.If) -> bool:
-        return all(_is_log_stmt(b) or (isinstance(b, ast.If) and _only_logs(b)) for b in x.body + x.orelse)
-    calls = [c for c in ast.walk(s.test) if isinstance(c, ast.Call)]
-    return arms_ok(s) and all(_is_pure_call(c) for c in calls) and not any(
-        isinstance(n, (ast.NamedExpr, ast.Await)) for n in ast.walk(s.test))
+        return all(_is_log_stmt(b) or (isinstance(b, ast.If) and _only_logs(b, pure)) for b in x.body + x.orelse)
+    return arms_ok(s) and pure(s.test)
 
 
 def _locals_only(st: State) -> State:
